@@ -93,6 +93,7 @@ impl LookaheadDFA {
 
             // Filter the transitions with the matching from-state
             let mut any_matching_found = false;
+            let mut token_matched = false;
             for i in 0..self.transitions.len() {
                 let current_transition = &self.transitions[i];
 
@@ -134,6 +135,7 @@ impl LookaheadDFA {
                             last_prod_num = prod_num;
                             trace!("State {} accepts", state);
                         }
+                        token_matched = true;
                         break;
                     }
                     Ordering::Greater => {
@@ -142,6 +144,11 @@ impl LookaheadDFA {
                     }
                     _ => (),
                 }
+            }
+            if !token_matched {
+                // No transition for this token: never skip over it to match later tokens from
+                // the same state.
+                break;
             }
         }
         if prod_num > INVALID_PROD {
